@@ -90,6 +90,7 @@ type Result struct {
 	Reached    bool // the final/callback fault was actually triggered
 	Reducer    bool
 	Resumed    int // failing calls the consumer recovered from
+	AtClose    []error // ownership problems observed at the instant Close / the reducer returned
 	FirstFault error // the earliest scripted fault that a source or callback actually produced
 }
 
@@ -727,6 +728,14 @@ func Consume(c Case, subj Subject, e *Env, pace func()) *Result {
 		break
 	}
 	subj.Close()
+	// ownership is judged at the moment Close (or the reducer) has returned, not after the bubble has come to rest
+	for _, src := range e.sources {
+		if src.Given() {
+			if err := src.Ownership(); err != nil {
+				res.AtClose = append(res.AtClose, err)
+			}
+		}
+	}
 	res.Sources = e.sources
 	res.Reached = e.cbFailed.Load()
 	var firstSeq int64
